@@ -311,6 +311,47 @@ def run(ctx):
                 ctx.bad('C20.5-proplist-siblings', nm, '%s handles %s; its siblings handle 2-tuples and bare atoms (%s handles %s)' % (nm, sorted(core), ref[0], sorted(ref[1])),
                         key='TABLE:proplist:%s' % nm.replace(' ', '_'))
 
+    # ... and what the writers emit is one of those shapes
+    ctx.rule('C20.5-proplist-writers', 'a function of the term type that produces a proplist writes each entry as a 2-tuple {Key, Value} or hands an element on as it is; a bare key (a clone of one component of an entry) is '
+             'written only under a test that the key is an atom - the readers expand bare atoms and skip every other bare term, so a bare binary key is lost on the way back and a bare {a, b} key comes back as the entry a => b', floor=1)
+    from ..core import dominating_edges as _dom20
+    vs20 = [v['n'] for v in ctx.F.adts['erltf::term::OwnedTerm']['variants']]
+    n_pw = 0
+    for q in sorted(ctx.F.bodies):
+        base_ = q.split('::{')[0]
+        if not base_.startswith('erltf::term::OwnedTerm::') or 'proplist' not in base_.rsplit('::', 1)[-1] or ctx.F.bodies[q]['kind'] not in ('Fn', 'AssocFn', 'Closure'):
+            continue
+        WB = P.B(q)
+        if WB.local_ty(0) != 'erltf::term::OwnedTerm':
+            continue          # the bodies that produce one element
+        n_pw += 1
+        bad_ = None
+        for l in sorted(WB.ret_sources()):
+            for d in WB.defs().get(l, []):
+                if d[0] != 't' or d[1] not in WB.live_blocks():
+                    continue
+                t = d[3] if len(d) > 3 else d[2]
+                if not any(n.endswith('Clone::clone') for n in callee_names(t)) or not t['args']:
+                    continue
+                ob, op_ = unwrap(WB.origin(t['args'][0]))
+                component = ob is not None and ((ob[0] == 'arg' and [x for x in list(ob[2]) + list(op_) if x not in ('deref', '*')]) or (ob[0] == 'call' and str(ob[1]).endswith('::index')))
+                if not component:
+                    continue
+                guarded = False
+                for (src, vals, dst) in _dom20(WB, d[1]):
+                    sd = WB.switch_on_discr(src)
+                    if sd and sd[1].replace('&', '') == 'erltf::term::OwnedTerm' and [vs20[v] for v in vals if isinstance(v, int)] == ['Atom']:
+                        guarded = True
+                if not guarded:
+                    bad_ = d[1]
+        inst = base_.rsplit('::', 1)[-1] + (q[len(base_):] if q != base_ else '')
+        if bad_ is not None:
+            ctx.bad('C20.5-proplist-writers', inst, '%s writes a component of an entry as a bare element without having tested that it is an atom: proplist_to_map / normalize_proplist expand bare atoms only, any other bare key is dropped '
+                    '(or, if it is a 2-tuple, read as an entry of its own)' % base_.rsplit('::', 1)[-1], ctx.where(WB, bad_), key='TABLE:proplist-writer:%s:bare-non-atom' % base_.rsplit('::', 1)[-1])
+        else:
+            ctx.ok('C20.5-proplist-writers', inst, 'entries are written as tuples / passed on whole', ctx.where(WB))
+    ctx.anchor(n_pw >= 1, 'element-producing bodies of the proplist writers (map_to_proplist::{closure#0})')
+
     # dependency: Atom::new
     ctx.rule('C20.1-atom-interning', 'map keys and atom values of the wrappers and proplist helpers are built and looked up with Atom::new: its interning tables agree entry by entry', floor=1)
     from ..etf import check_atom_tables
